@@ -29,7 +29,7 @@ RULE = ("schema: the rich fixed schema (4/5) or one of 4000 generated valid sche
 ASSUMPTIONS = ["errors are compared as multisets of (message, locations); across reprint/layout changes, of messages only",
                "max_errors is set to 10000 for the union law so truncation cannot interfere"]
 REQUIRED_COUNTERS = ["union_laws_checked", "reprint_laws_checked", "layout_laws_checked", "description_laws_checked",
-                     "determinism_checked", "max_errors_laws_checked", "documents_with_errors", "sdl_union_laws_checked", "sdl_documents_with_errors"]
+                     "determinism_checked", "history_laws_checked", "max_errors_laws_checked", "documents_with_errors", "sdl_union_laws_checked", "sdl_documents_with_errors"]
 
 BIG = 10000
 
@@ -282,7 +282,43 @@ def sdl_case(ctx, rng, k):
     check_sdl(ctx, text, rng, base_sdl, origin)
 
 
+def definition_history(ctx, schema, rng):
+    """A document may define directives / types of its own (known within that document only).  Validating such a
+    document, or extending the schema by it, must not change what later documents are told about the same names."""
+    from graphql import extend_schema
+    root = schema.query_type.name
+    for name in ('foo', 'F1', 'onField', 'cached', 'skipIf', 'Thing', 'Extra', 'deferred'):
+        user = rng.choice([f'{{ __typename @{name} }}', f'{{ ... @{name}(if: true) {{ __typename }} }}',
+                           f'query ($v: {name}) {{ __typename }}', f'{{ ... on {name} {{ __typename }} }}',
+                           f'{{ __typename @{name} ... on {name} {{ __typename }} }}'])
+        definer = rng.choice([f'directive @{name}(if: Boolean) on FIELD | INLINE_FRAGMENT {{ __typename }}',
+                              f'type {name} {{ a: Int }} {{ __typename }}', f'scalar {name} directive @{name} on FIELD query {{ __typename }}',
+                              f'input {name} {{ a: Int }} directive @{name}(if: Boolean) repeatable on FIELD | INLINE_FRAGMENT'])
+        case = {"source": user, "origin": "definition-history", "seed": 0, "schema": None, "definer": definer}
+        try:
+            before = sig(validate(schema, parse(user), None, max_errors=BIG))
+            validate(schema, parse(definer), None, max_errors=BIG)
+            if 'query' not in definer and '{ __typename }' not in definer:
+                try:
+                    extend_schema(schema, parse(definer))
+                except Exception:  # noqa: BLE001
+                    pass
+            after = sig(validate(schema, parse(user), None, max_errors=BIG))
+        except Exception as e:  # noqa: BLE001
+            ctx.violation(f"validate-crash:{type(e).__name__}", {"source": user, "exception": repr(e)[:300], "rules": None}, case)
+            continue
+        ctx.case()
+        ctx.count("history_laws_checked")
+        ctx.count("definition_histories_checked")
+        if before != after:
+            ctx.violation("history-changes-messages", {"source": user, "validated_in_between": [definer], **diff(before, after)}, case)
+            return
+        if before:
+            ctx.nontrivial((user, definer))
+
+
 def run_shard(ctx):
+    definition_history(ctx, rich(), ctx.rng)
     for k in range(ctx.n(1600, 50000)):
         sdl_case(ctx, ctx.rng, k)
     # every executable directive at every kind of position of every operation type, well- and ill-typed arguments
@@ -298,6 +334,7 @@ def run_shard(ctx):
     rng = ctx.rng
     rich_schema, rich_snapshot, rich_vocab = schema, snapshot, vocab
     gen_cache = {}
+    history = {}
     for k in range(ctx.n(4500, 150000)):
         mode = rng.random()
         schema, snapshot, vocab, sidx = rich_schema, rich_snapshot, rich_vocab, None
@@ -331,10 +368,33 @@ def run_shard(ctx):
             except GraphQLError:
                 pass
         else:
-            text = src.gen_source(rng, 'exec', names=vocab[:40] + ['F1', 'F2', 'v0', 'v1', 'if', 'skip', 'include', 'defer', 'stream'], max_depth=3,
+            # (a fifth of these mix type-system definitions in: an executable document may define directives / types of its own)
+            text = src.gen_source(rng, 'document' if rng.random() < 0.2 else 'exec',
+                                  names=vocab[:40] + ['F1', 'F2', 'v0', 'v1', 'if', 'skip', 'include', 'defer', 'stream'], max_depth=3,
                                   hostile=0.05, style='plain')
             origin = "G-src over schema vocabulary"
         check_doc(ctx, schema, text, rng, origin.split('+')[0] if origin.startswith('G-src') else origin, snapshot, sidx)
+        # history: what validation says about a document must not depend on which documents were validated before it
+        # against the same schema object
+        hist = history.setdefault(sidx, [])
+        if len(hist) >= 6:
+            old_text, old_sig = hist.pop(rng.randrange(len(hist)))
+            try:
+                again = validate(schema, parse(old_text), None, max_errors=BIG)
+            except Exception as e:  # noqa: BLE001
+                again = None
+                ctx.violation(f"validate-crash:{type(e).__name__}", {"source": old_text[:400], "exception": repr(e)[:300], "rules": None},
+                              {"source": old_text, "origin": "history", "seed": 0, "schema": sidx})
+            if again is not None:
+                ctx.count("history_laws_checked")
+                if sig(again) != old_sig:
+                    ctx.violation("history-changes-messages", {"source": old_text[:400], "validated_in_between": [t[:120] for t, _ in hist[-3:]] + [text[:120]],
+                                                              **diff(old_sig, sig(again))},
+                                  {"source": old_text, "origin": "history", "seed": 0, "schema": sidx, "history": [t for t, _ in hist] + [text]})
+        try:
+            hist.append((text, sig(validate(schema, parse(text), None, max_errors=BIG))))
+        except Exception:  # noqa: BLE001
+            pass
         if k % 1499 == 0:
             ctx.sample({"origin": origin, "source": text[:400]})
 
